@@ -102,7 +102,7 @@ def handleExported (toks : List String) : Option String := do
   let xsH ← (← kv? toks "xsH").toNat?
   let q ← parseVec? (← kv? toks "Q")
   let p ← parseVec? (← kv? toks "P")
-  let known := exportedSets.contains { name := name, logN := logN, xsH := xsH, q := q, p := p }
+  let known := exportedSets.any (·.same name logN xsH q p)
   let kind := secretKind logN xsH
   let tbl := match tableMax logN kind with
     | some t => toString t
